@@ -12,7 +12,7 @@ _FALLBACK = None
 _PLATEAU = None
 SIZES = {  # (quick, thorough) number of pairs per stratum
     "uniform": (120, 2500), "threshold": (260, 6000), "grey": (80, 3000), "named": (60, 2000),
-    "nearbg": (80, 2000), "hair": (60, 1200), "witness": (900, 20000), "witness_neargrey": (900, 20000), "witness_special": (900, 20000), "witness_plateau": (900, 20000), "witness_crossover": (900, 20000), "witness_translucent": (900, 20000), "spell": (130, 3000), "isolum": (150, 3000), "hairline": (70, 1500), "corner": (120, 2500), "zeroone": (40, 400), "edge": (120, 2500), "ultrahair": (90, 1500), "neargrey": (90, 1500), "informal": (60, 1000), "razor": (150, 3000), "extreme": (60, 1500), "hslbg": (90, 2000), "witness_edge": (900, 20000), "history": (150, 3000), "witness_hsl": (900, 20000),
+    "nearbg": (80, 2000), "hair": (60, 1200), "witness": (900, 20000), "witness_neargrey": (900, 20000), "witness_special": (900, 20000), "witness_plateau": (900, 20000), "witness_crossover": (900, 20000), "witness_translucent": (900, 20000), "spell": (130, 3000), "isolum": (150, 3000), "hairline": (70, 1500), "corner": (120, 2500), "zeroone": (40, 400), "edge": (120, 2500), "ultrahair": (90, 1500), "neargrey": (90, 1500), "informal": (60, 1000), "razor": (150, 3000), "extreme": (60, 1500), "hslbg": (90, 2000), "witness_edge": (900, 20000), "history": (150, 3000), "equilum": (150, 3000), "witness_hsl": (900, 20000),
 }
 
 
@@ -32,9 +32,9 @@ def strata(pid, t, rnd):
     def spelled(c, kind):
         return pairs.spell(c, kind, rnd)
 
-    w = {"C01": dict(uniform=1, threshold=1, grey=1, named=1, nearbg=.5, hair=.5, spell=1, isolum=.3, hairline=1, corner=.5, zeroone=1, edge=.5, ultrahair=1, neargrey=.5, informal=.5, razor=1, extreme=.5, hslbg=1),
-         "C02": dict(uniform=.7, threshold=1, grey=.7, named=.5, nearbg=.7, hair=1.5, spell=.6, isolum=4, hairline=1, corner=3, zeroone=1, ultrahair=.5, neargrey=1.5, informal=1.5, razor=1.4, extreme=.5, hslbg=1),
-         "C16": dict(uniform=.5, threshold=1.2, grey=.5, named=.3, nearbg=2.0, hair=.3, spell=.2, isolum=.5, edge=2, corner=.3, history=1),
+    w = {"C01": dict(uniform=1, threshold=1, grey=1, named=1, nearbg=.5, hair=.5, spell=1, isolum=.3, hairline=1, corner=.5, zeroone=1, edge=.5, ultrahair=1, neargrey=.5, informal=.5, razor=1, extreme=.5, hslbg=1, equilum=.4),
+         "C02": dict(uniform=.7, threshold=1, grey=.7, named=.5, nearbg=.7, hair=1.5, spell=.6, isolum=4, hairline=1, corner=3, zeroone=1, ultrahair=.5, neargrey=1.5, informal=1.5, razor=1.4, extreme=.5, hslbg=1, equilum=.5),
+         "C16": dict(uniform=.5, threshold=1.2, grey=.5, named=.3, nearbg=2.0, hair=.3, spell=.2, isolum=.5, edge=2, corner=.3, history=1, equilum=1),
          "C04": dict(uniform=1, threshold=1, grey=.5, named=.3, nearbg=1.5, hair=.2, spell=.3, isolum=.5),
          "C03": dict(witness=1, witness_neargrey=.6, witness_translucent=.2, witness_hsl=.25, extreme=3, witness_edge=.6, witness_special=.5, witness_plateau=.2, witness_crossover=.4)}[pid]
     for name, scale in w.items():
@@ -196,6 +196,9 @@ def strata(pid, t, rnd):
                 if _PLATEAU:
                     c, bgc, lg, vr = _PLATEAU[k % len(_PLATEAU)]
                     add(c, bgc, lg, witness=True, runs=[(m, v2) for v2 in (vr, not vr) for m in (0, 1, 2)])
+            elif name == "equilum":
+                a, b = pairs.equilum(rnd)
+                add(a, b, large, runs=[(m, v2) for v2 in (False, True) for m in (1, 2, 0)])
             elif name == "history":
                 # the pair's runs come after a short history of relaxed-mode calls that needed the fallback options (selected
                 # by scanning the implementation; the verdict on the pair's own runs is TLC's): "asking for less never fails"
@@ -224,7 +227,8 @@ def strata(pid, t, rnd):
                     a, _b = pairs.near_threshold(rnd, tq, (-0.05, 0.1))
                 else:
                     a, b = pairs.near_threshold(rnd, tq, (-0.04, 0.04))
-                add(a if k % 2 else spelled(a, "hslodd"), spelled(b, "hslodd"), large, "tuple" if k % 2 else "hslodd")
+                bk = "hslmixed" if k % 4 == 3 else "hslodd"
+                add(a if k % 2 else spelled(a, "hslodd"), spelled(b, bk), large, "tuple" if k % 2 else "hslodd")
             elif name == "edge":
                 a, b = pairs.edge_near_threshold(rnd, rnd.choice(REQS))
                 add(a, b, large)
